@@ -15,6 +15,9 @@ Proof. exact (ante_accept s t s'). Qed.
 Theorem C03_forgery_rejected s t :
   (forall ka, key_used s t = Some ka -> t_signed_by t <> ka) \/ t_mutated t = true -> ante s t = None.
 Proof. exact (ante_rejects_forgery s t). Qed.
+(* the key - attached to the signature, or the one on the account's record, whoever's it is - must be the signer's own *)
+Theorem C03_foreign_key_rejected s t ka : key_used s t = Some ka -> ka <> msg_signer (t_msg t) -> ante s t = None.
+Proof. exact (ante_rejects_foreign_key s t ka). Qed.
 Theorem C03_replay_rejected s t : t_in_index t = true -> ante s t = None.
 Proof. exact (ante_rejects_replay s t). Qed.
 Example C03_ex : match ex_genesis with
